@@ -183,6 +183,7 @@ def records_agree(ri, rm, tol=TOL):
     """first disagreement index or None"""
     ri = [r for r in ri if r[0] not in ("t", "o", "f", "s", "g")]
     n = max(len(ri), len(rm))
+    zeros_differ = False
     for k in range(n):
         if k >= len(ri) or k >= len(rm):
             return k
@@ -192,11 +193,14 @@ def records_agree(ri, rm, tol=TOL):
         if a[0] == "d":
             if a[1] != b[1] or not vec_close(a[2], b[2], tol):
                 return k
+            # an amplitude that is exactly 0 on one side and a rounding residue (1e-17) on the other -- a threaded sum
+            # taken in another order -- makes "outcomes that can occur" differ: histograms of this state are not compared
+            zeros_differ = any((x == 0) != (y == 0) for x, y in zip(a[2], b[2]))
         elif a[0] == "m":
             if a[1] != b[1]:
                 return k
         elif a[0] == "h":
-            if a[1] != b[1]:
+            if a[1] != b[1] and not zeros_differ:
                 return k
         elif a[0] == "p":
             if not vec_close(a[1], b[1], tol):
@@ -317,7 +321,7 @@ def threaded_core(rng, tier, sample=True):
                         ("measure", m), ("dump",), ("abs",), ("probs",), ("measure", m), ("dump",),
                         ("apply", ("h", full)), ("dump",), ("abs",), ("measure", hi), ("dump",), ("abs",), ("probs",)]
                 if sample:
-                    acts += [("apply", ("h", full)), ("sample", rng.choice([1 << n, 3 << n, (1 << n) // 2 + 1])),
+                    acts += [("apply", ("h", full)), ("dump",), ("sample", rng.choice([1 << n, 3 << n, (1 << n) // 2 + 1])),
                              ("sample", rng.choice([0, 1, 7]))]
                 hs.append((rng.randrange(1 << 30), acts))
     return hs
